@@ -8,6 +8,7 @@ import (
 	"github.com/csgura/fp"
 	"github.com/csgura/fp/as"
 	"github.com/csgura/fp/future"
+	"github.com/csgura/fp/hlist"
 	"github.com/csgura/fp/iterator"
 	"github.com/csgura/fp/list"
 	"github.com/csgura/fp/seq"
@@ -718,7 +719,9 @@ func (g *gctx) mk(op string, budget int) *node {
 	panic("unknown op " + op)
 }
 
-type hlistNil = struct{}
+type hlistNil = hlist.Nil
+
+func futureMap2(a, b fp.Future[int]) fp.Future[int] { return future.Map2(a, b, comb) }
 
 func optDescs(ks []*node) string {
 	if len(ks) == 0 {
